@@ -104,6 +104,9 @@ func c19Scenarios(tier string) []*Scenario {
 	add("hedge(retry)-late-hedge-in-retry-delay-2", []Spec{hedge(2, nil), longRetry}, one([]Out{{Err: E1, Dur: 100, Coop: true}, {V: 1, Dur: 20}, {Err: E1}, {V: 2, Dur: 5}}))
 	add("hedge(limiter-wait)-late-hedge", []Spec{hedge(1, nil), {Kind: KLimiter, Smooth: true, Interval: 500, LWait: 2000}}, one([]Out{{V: 1, Dur: 20}, {V: 2, Dur: 5}}))
 	add("hedge(bulkhead-wait)-late-hedge", []Spec{hedge(1, nil), {Kind: KBulkhead, Conc: 1, BWait: 1000}}, one([]Out{{V: 1, Dur: 20, Coop: true}, {V: 2, Dur: 5}}))
+	// the first attempt is timed out (the Timeout records its result) while the hedge attempt still waits for a permit: the waiter is cancelled too
+	add("hedge(limiter-wait(timeout))-first-times-out", []Spec{hedge(1, nil), {Kind: KLimiter, Smooth: true, Interval: 500, LWait: 2000}, T(30)}, one([]Out{{V: 1, Block: true}, {V: 2, Dur: 5}}))
+	add("hedge(bulkhead-wait(timeout))-first-times-out", []Spec{hedge(1, nil), {Kind: KBulkhead, Conc: 1, BWait: 1000}, T(30)}, one([]Out{{V: 1, Block: true, Dur: 100}, {V: 2, Dur: 5}}))
 	add("timeout(bulkhead-wait)", []Spec{T(30), {Kind: KBulkhead, Conc: 1, Held: 1, BWait: 50}}, one(ok))
 	add("timeout(limiter-wait)", []Spec{T(30), {Kind: KLimiter, Smooth: true, Interval: 100, Used: 1, LWait: 200}}, one(ok))
 	// the same execution three times on the same instances: the live set does not grow
